@@ -68,6 +68,9 @@ func c13Leaf(k *fw.K, kind string, b, cl int) {
 	obj := lossObj(kind)
 	var cases []lossCase
 	defer func() { k.Case = map[string]any{"one_loss_object_rounds": cases} }()
+	if k.Index%5 == 2 {
+		refusedCalls(k)
+	}
 	present := map[string]bool{}
 	for round := 0; round < rounds; round++ {
 		p, t := ref.Zeros(shape), ref.Zeros(shape)
@@ -113,10 +116,44 @@ func c13Leaf(k *fw.K, kind string, b, cl int) {
 				p.Data[i] = v
 			}
 		}
+		// label patterns a scalar heuristic might take for "hard labels": a 0, a 1 and soft labels that PAIR UP to whole numbers
+		if n := len(t.Data); n >= 4 && k.Rng.Intn(5) == 0 {
+			t.Data[0], t.Data[1] = 0, 1
+			for i := 2; i+1 < n; i += 2 {
+				a := []float64{0.5, 0.25, 0.125, 0.75}[k.Rng.Intn(4)]
+				t.Data[i], t.Data[i+1] = a, 1-a
+			}
+			present["t:paired-soft"] = true
+			for i := range p.Data { // ordinary interior predictions, so that the soft samples have a clearly non-zero derivative
+				if p.Data[i] <= 0.01 || p.Data[i] >= 0.99 {
+					p.Data[i] = 0.1 + 0.8*k.Rng.Float64()
+				}
+			}
+		}
 		trackP := k.Rng.Intn(8) > 0
 		trackT := k.Rng.Intn(2) == 0
 		cases = append(cases, lossCase{Loss: kind, Pred: p, Target: t})
 		rp, rtt := rt.MustLeaf(p, trackP), rt.MustLeaf(t, trackT)
+		if hard := allHard(t); hard && k.Rng.Intn(3) == 0 {
+			// the 0/1 labels are a comparison MASK over the output of a stage that was already back-propagated (thresholded
+			// pseudo-labels): a comparison result is a fresh untracked tensor whatever its operands went through
+			var m tensor.Tensor
+			if pn := call(func() {
+				src := t.Clone()
+				for i := range src.Data {
+					src.Data[i] = 0.25 + 0.5*src.Data[i] // 0 -> 0.25, 1 -> 0.75
+				}
+				stage := rt.MustLeaf(src, true)
+				if e := tensor.BackPropagate(stage.Scale(2)); e != nil {
+					return
+				}
+				m, _ = stage.Gt(rt.MustLeaf(ref.Full(shape, 0.5), false))
+			}); pn == nil && m != nil {
+				rtt, trackT = m, false
+				present["t:mask-of-a-spent-tensor"] = true
+				k.Count("rounds_with_labels_thresholded_from_a_back_propagated_stage", 1)
+			}
+		}
 		var l tensor.Tensor
 		var err error
 		argMsg := ""
@@ -269,4 +306,13 @@ func c13Upstream(k *fw.K) {
 	if msg := checkGradsScaled(ts, want, scale, fmt.Sprintf("%s over an upstream program (prediction = tensor %d)", kind, pred)); msg != "" {
 		k.Failf("%s", msg)
 	}
+}
+
+func allHard(t *ref.T) bool {
+	for _, v := range t.Data {
+		if v != 0 && v != 1 {
+			return false
+		}
+	}
+	return true
 }
